@@ -17,6 +17,8 @@ def main():
     a = ap.parse_args()
     if a.replay:
         sys.exit(core.do_replay(a.replay))
+    if a.tier == "thorough":
+        os.environ.setdefault("VERIF_XCHECK_EVERY", "50")  # two solvers: every 50th unsat re-posed to cvc5
     prop = a.prop.upper()
     mod = importlib.import_module("vf.props." + prop.lower())
     instances, meta = mod.instances(a.tier)
